@@ -36,8 +36,12 @@ def scenarios(rng, tier):
       'reset_quick_then_topo': [discover(M, gen=3), qlt(M, own, 14, 0, seq=8), reset(M, tos=1), reset(M, tos=0)],
       'reset_drained_quick_topo': [discover(M, gen=3), probe(mac(76), own, mac(76), own), qlt(M, own, 14, 0, seq=8), query(M, own, seq=9), reset(mac(2), tos=1), reset(M, tos=0)],
     }
-    for bn, fr in list(blocks.items()) + [('qlt_icon_empty', blocks['qlt_icon0']), ('qlt_icon_empty_walk', blocks['qlt_icon_walk'] + [reset(M)])]:
-        s.start('rep_' + bn); s.lines.append(gline(host=b'h', icon=b'' if 'empty' in bn else icon, fname=b'a friendly name', hwid=b'hw'))
+    blocks['qlt_beyond'] = [qlt(M, own, 17, 15, seq=8), qlt(M, own, 17, 16, seq=9), qlt(M, own, 17, 0xFFFF, seq=10), qlt(M, own, 19, 5, seq=11), qlt(M, own, 19, 4000, seq=12), qlt(M, own, 14, 0xFFF0, seq=13)]
+    hosts = {'': dict(fname=b'a friendly name', hwid=b'hw'), '_noname': dict(fname=b'', hwid=b''), '_absent': dict(fname=None, hwid=b'')}
+    variants = [(bn, fr, '') for bn, fr in blocks.items()] + [('qlt_icon_empty', blocks['qlt_icon0'], ''), ('qlt_icon_empty_walk', blocks['qlt_icon_walk'] + [reset(M)], '')]
+    variants += [(bn + hv, blocks[bn], hv) for bn in ('qlt_name', 'qlt_hwid', 'qlt_beyond', 'qlt_unknown') for hv in ('_noname', '_absent')]     # empty / absent friendly name and hardware id
+    for bn, fr, hv in variants:
+        s.start('rep_' + bn); s.lines.append(gline(host=b'h', icon=b'' if 'empty' in bn else icon, **hosts[hv]))
         for r_ in range(60 if tier == 'quick' else 400):
             for f in fr: s.frame(0, f)
     N = 3000 if tier == 'quick' else 100000
